@@ -20,8 +20,11 @@ use xet_threadpool::ThreadPool;
 use crate::ctx::{fnv, run_children, Ctx};
 
 pub fn run_parent(ctx: &mut Ctx) {
-    let cfgs: Vec<Vec<(String, String)>> = [(512usize, 3000usize, 4usize), (256, 2000, 2), (1024, 6000, 6)].iter().map(|(t, b, c)| vec![
+    // the last two configurations have a tiny shard target, so that a session hands SEVERAL shards to the store (a failing shard
+    // upload is then not necessarily the last one started)
+    let cfgs: Vec<Vec<(String, String)>> = [(512usize, 3000usize, 4usize, 64u64 << 20), (256, 2000, 2, 64 << 20), (1024, 6000, 6, 64 << 20), (512, 3000, 4, 600), (256, 2000, 2, 400)].iter().map(|(t, b, c, sh)| vec![
         ("HF_XET_TARGET_CHUNK_SIZE".to_string(), t.to_string()), ("HF_XET_MAX_XORB_BYTES".to_string(), b.to_string()), ("HF_XET_MAX_XORB_CHUNKS".to_string(), c.to_string()),
+        ("HF_XET_MDB_SHARD_MIN_TARGET_SIZE".to_string(), sh.to_string()), ("HF_XET_MDB_SHARD_TARGET_SIZE".to_string(), sh.to_string()),
         ("HF_XET_MAX_CONCURRENT_UPLOADS".to_string(), "256".to_string())]).collect();
     run_children(ctx, "session_faults-child", &cfgs);
 }
@@ -121,7 +124,8 @@ pub fn run_child(ctx: &mut Ctx) {
         let ctl = Arc::new((Mutex::new(Ctl::default()), Condvar::new()));
         // fault plan: which task ids fail (by spawn order), whether a shard upload fails; scenario 0..: each single put in turn
         let fail_task: Vec<usize> = if sc % 3 == 0 { vec![(sc / 3) as usize % 6] } else if rng.chance(1, 3) { vec![] } else { (0..rng.range(1, 3)).map(|_| rng.below(8) as usize).collect() };
-        if rng.chance(1, 6) { ctl.0.lock().unwrap().fail_shard = Some(rng.below(2) as usize); }
+        let many_shards = std::env::var("HF_XET_MDB_SHARD_MIN_TARGET_SIZE").ok().and_then(|v| v.parse::<u64>().ok()).map_or(false, |v| v < 100_000);
+        if rng.chance(1, if many_shards { 2 } else { 6 }) { ctl.0.lock().unwrap().fail_shard = Some(rng.below(if many_shards { 5 } else { 2 }) as usize); }
         let client: Arc<dyn Client + Send + Sync> = Arc::new(FaultClient { inner, ctl: ctl.clone() });
         take_events();
         let (cfg2, tp2) = (config.clone(), tp.clone());
